@@ -1606,7 +1606,39 @@ class Interp:
     def h_rebind_sub(self, base, idx, newval, node, env, ctx):
         return None
 
+    def _quantifier_as_loop(self, s, env, ctx):
+        """`return all(c for x in gen(...))` / `return any(...)` over a *generator function* of the repository: the loop with an early return that the
+        builtin abbreviates (for x in gen(...): if not c: return False / return True) - which the generator fusion of st_For can then read"""
+        v = s.value
+        if not (isinstance(v, ast.Call) and isinstance(v.func, ast.Name) and v.func.id in ("all", "any") and v.func.id not in env and len(v.args) == 1 and not v.keywords
+                and isinstance(v.args[0], ast.GeneratorExp)):
+            return None
+        ge = v.args[0]
+        g0 = ge.generators[0].iter
+        if not (isinstance(g0, ast.Call) and isinstance(g0.func, (ast.Name, ast.Attribute))):
+            return None
+        probe = ast.For(ge.generators[0].target, g0, [ast.Pass()], [], None)
+        ast.copy_location(probe, s)
+        ast.fix_missing_locations(probe)
+        if self._fuse_generator(probe, env, ctx) is None:
+            return None
+        is_all = v.func.id == "all"
+        test = ast.UnaryOp(ast.Not(), ge.elt) if is_all else ge.elt
+        body = ast.If(test, [ast.Return(ast.Constant(not is_all))], [])
+        for g in reversed(ge.generators):
+            for c in reversed(g.ifs):
+                body = ast.If(c, [body], [])
+            body = ast.For(g.target, g.iter, [body], [], None)
+        out = [body, ast.Return(ast.Constant(is_all))]
+        for x in out:
+            ast.copy_location(x, s)
+            ast.fix_missing_locations(x)
+        return out
+
     def st_Return(self, s, env, ctx):
+        q = self._quantifier_as_loop(s, env, ctx) if s.value is not None else None
+        if q is not None:
+            return self.exec_block(q, env, ctx)
         v = self.ev(s.value, env, ctx) if s.value is not None else self.h_none(ctx)
         v = self.h_return(v, s, env, ctx)
         ctx.rets.append((v, s, env))
